@@ -2,7 +2,8 @@
 (***************************************************************************)
 (* C13, last sentence: after each key-preparation helper returns, neither  *)
 (* the raw key nor the derived key material is left in the registers or in *)
-(* the dead stack (harness/drv_keyres.c: 21 helpers through the scrubbing  *)
+(* the dead stack (harness/drv_keyres.c: 21 helpers, and 9 direct cipher / *)
+(* authentication calls with key and plaintext, through the scrubbing      *)
 (* and dumping trampoline; 8-byte windows of the key and of the helper's   *)
 (* outputs are searched in all vector and general-purpose registers and in *)
 (* 16 KiB of stack below the caller).                                      *)
@@ -15,7 +16,7 @@ Init == l = 1 /\ fns = {}
 One == /\ l <= Len(Tr) /\ Tr[l].e = "KeyRes"
        /\ Tr[l].res_reg = 0 /\ Tr[l].res_stk = 0 /\ Tr[l].abi = 0
        /\ fns' = fns \cup {Tr[l].fn} /\ l' = l + 1
-End == /\ l = Len(Tr) /\ Tr[l].e = "KeyResEnd" /\ Tr[l].n = l - 1 /\ Cardinality(fns) >= 21
+End == /\ l = Len(Tr) /\ Tr[l].e = "KeyResEnd" /\ Tr[l].n = l - 1 /\ Cardinality(fns) >= 30
        /\ l' = l + 1 /\ UNCHANGED fns
 Next == One \/ End
 Spec == Init /\ [][Next]_vars
